@@ -837,7 +837,19 @@ impl<'a, BF: PrimeField64, EF: ExtensionField<BF>> Gen<'a, BF, EF> {
                 // proper chain: starts at the constant zero, operands chosen before the chain so
                 // that the steps are emitted consecutively, intermediate outputs never reused
                 let al = self.any();
-                let ops: Vec<(usize, usize)> = (0..steps).map(|_| (self.any(), self.any())).collect();
+                let mut ops: Vec<(usize, usize)> = (0..steps).map(|_| (self.any(), self.any())).collect();
+                // one time in three, one step's p_at_z is a product made just before the chain whose
+                // only other reader is one forward add after the chain (a product with two readers,
+                // one of them a Horner step's `c` operand: not a fusion candidate)
+                let shared_product = if self.rng.chance(1, 3) {
+                    let (x, y) = (self.any(), self.any());
+                    let p = self.op2(2, x, y);
+                    let k = self.rng.usize_below(steps);
+                    ops[k].0 = p;
+                    Some(p)
+                } else {
+                    None
+                };
                 if self.calls.iter().rev().find(|c| !matches!(c, Call::Const(_) | Call::Public | Call::Private | Call::Connect(..))).is_some_and(|c| matches!(c, Call::Horner(..))) {
                     // keep this chain from being scheduled as a continuation of the previous one
                     let (x, y) = (self.any(), self.any());
@@ -855,6 +867,10 @@ impl<'a, BF: PrimeField64, EF: ExtensionField<BF>> Gen<'a, BF, EF> {
                     let v = self.v(acc);
                     let e = self.fresh_input_eq(v);
                     self.calls.push(Call::Connect(acc, e));
+                }
+                if let Some(p) = shared_product {
+                    let w = self.any();
+                    let _q = self.op2(0, p, w);
                 }
             }
             0 | 1 => {
